@@ -505,3 +505,31 @@ class ArtifactDerivativeLemma(Contract):
                 "PyVC.g'_hasDerivAt": "lemma_third_column_is_the_second_time_derivative_of_the_gaussian",
             },
         )
+
+
+class SpectralShapeLemmas(Contract):
+    """`skewed_gaussian_limit` (Lean 4 + Mathlib, re-checked every run): for every A, x, x0, Δ the skewed-Gaussian formula
+    A·exp(-log 2·(log(1 + 2b(x - x0)/Δ)/b)²) tends to the Gaussian A·exp(-log 2·(2(x - x0)/Δ)²) as b → 0, b ≠ 0 - the
+    exact fall-back the code takes for |b| <= 1e-8 is the limit, i.e. the shape is "continuous as skewness tends to 0".
+    `gaussian_half_maximum`: the value at x0 ± Δ/2 is A/2 (the z3 side assumes exp(-log 2) = 1/2 as a ground axiom)."""
+
+    prop = "C07"
+    name = "SpectralShapeLemmas"
+    lemma_files = (__import__("pathlib").Path(__file__).resolve().parent.parent / "lemmas" / "SkewedGaussianLimit.lean",)
+    target = None
+    strength = "U"
+    trusted = ("Lean 4.33 kernel and Mathlib (Real.log, Real.exp, derivative as limit of the slope); axioms propext, Classical.choice, Quot.sound",)
+
+    def cases(self, tier):
+        return iter(())
+
+    def static_obligations(self, tier):
+        from pyvc.lean import check_lemmas
+
+        return check_lemmas(
+            self.lemma_files[0],
+            {
+                "PyVC.skewed_gaussian_limit": "lemma_skewed_gaussian_tends_to_the_gaussian_as_skewness_tends_to_zero",
+                "PyVC.gaussian_half_maximum": "lemma_half_maximum_at_plus_minus_half_fwhm",
+            },
+        )
